@@ -240,6 +240,10 @@ class _StrInterp:
                 pass
             elif isinstance(st, (ast.Import, ast.ImportFrom, ast.Pass)):
                 pass
+            elif isinstance(st, ast.FunctionDef):
+                # a local helper of the hole-building code
+                self.helpers = dict(self.helpers)
+                self.helpers[st.name] = st
             else:
                 raise TemplateError(f"unexpected statement "
                                     f"{ast.unparse(st)[:60]} in hole-building code")
